@@ -57,4 +57,54 @@ mod verif_kani_search {
         kani::assume(start > end);
         let _ = Match::new(PatternID::ZERO, start..end);
     }
+    /// C10: Input::set_range / range turn every kind of range bound into the half-open span with
+    /// the same meaning (`a..=b` is `a..b+1`, `..` is the whole haystack), and set_end / span /
+    /// set_start store what they are given.
+    #[kani::proof]
+    fn set_range_means_the_same_half_open_span() {
+        use core::ops::Bound;
+        let hay = [0u8; 8];
+        let len: usize = kani::any();
+        kani::assume(len <= 8);
+        let (a, b): (usize, usize) = (kani::any(), kani::any());
+        let sb: u8 = kani::any();
+        let eb: u8 = kani::any();
+        kani::assume(sb < 3 && eb < 3);
+        let start_bound = match sb { 0 => Bound::Included(a), 1 => Bound::Excluded(a), _ => Bound::Unbounded };
+        let end_bound = match eb { 0 => Bound::Included(b), 1 => Bound::Excluded(b), _ => Bound::Unbounded };
+        // the mathematical meaning of the bounds
+        kani::assume(a < usize::MAX && b < usize::MAX);
+        let start = match sb { 0 => a, 1 => a + 1, _ => 0 };
+        let end = match eb { 0 => b + 1, 1 => b, _ => len };
+        kani::assume(end <= len && start <= end + 1);
+        // the input may already carry a narrower span: a range replaces it, open sides included
+        let (s0, e0): (usize, usize) = (kani::any(), kani::any());
+        kani::assume(e0 <= len && s0 <= e0 + 1);
+        let mut input = Input::new(&hay[..len]).span(s0..e0);
+        input.set_range((start_bound, end_bound));
+        assert!(input.start() == start && input.end() == end);
+        let input2 = Input::new(&hay[..len]).span(s0..e0).range((start_bound, end_bound));
+        assert!(input2.get_span() == Span { start, end });
+        let input3 = Input::new(&hay[..len]).span(start..end);
+        assert!(input3.get_span() == Span { start, end } && input3.get_range() == (start..end));
+        kani::cover!(eb == 0 && b + 1 == len);
+        kani::cover!(sb == 1 && eb == 2);
+        kani::cover!(sb == 2 && eb == 0 && b == 0);
+    }
+
+    /// set_start / set_end change one bound only
+    #[kani::proof]
+    fn set_start_set_end_change_one_bound() {
+        let hay = [0u8; 8];
+        let len: usize = kani::any();
+        kani::assume(len <= 8);
+        let (s0, e0, s1, e1): (usize, usize, usize, usize) = (kani::any(), kani::any(), kani::any(), kani::any());
+        kani::assume(e0 <= len && s0 <= e0 + 1 && s1 <= e0 + 1 && e1 <= len && s1 <= e1 + 1);
+        let mut input = Input::new(&hay[..len]).span(s0..e0);
+        input.set_start(s1);
+        assert!(input.start() == s1 && input.end() == e0);
+        input.set_end(e1);
+        assert!(input.start() == s1 && input.end() == e1);
+        kani::cover!(s1 == e1 + 1);
+    }
 }
